@@ -11,6 +11,7 @@ CONSTANTS
   DialMayFail = FALSE
   WithClose = FALSE
   MayCancel = TRUE
+  DialedAtStart = TRUE
   MayReset = FALSE
   MaySrvClose = FALSE
 INVARIANTS Safety Recovers
